@@ -40,12 +40,36 @@ def run(ctx, rep):
         for fn in F.need(fb):
             n_sites += 1
             tests = []
+
+            class _T:           # a test block with the edge on which the option(s) are set as succ[0]
+                def __init__(self, bid, set_target):
+                    self.id, self.succ = bid, [set_target]
+
+            def keys_of(tree):
+                ks = [n.get("s") for n in walk(tree) if n.get("k") == "lit" and n.get("s") in tab["option_keys"]]
+                if ks and any(n.get("k") == "call" and short(n) == tab["option_test"] for n in walk(tree)):
+                    return set(ks)
+                return set()
+            from ..cfgutil import _strip_not
+            bool_locals = {}    # decl id -> keys tested by its initialiser (`const bool explicit = IsSet(a) && IsSet(b);`)
+            for b_, ev_ in fn.events():
+                if ev_["k"] == "decl" and "d" in (ev_.get("var") or {}) and isinstance(ev_.get("e"), dict):
+                    ks = keys_of(ev_["e"])
+                    if ks and not any(n.get("k") == "bin" and n.get("op") == "||" for n in walk(ev_["e"])):
+                        bool_locals[ev_["var"]["d"]] = ks
             for b in fn.blocks.values():
                 if b.cond is None or len(b.succ) != 2:
                     continue
-                keys = [n.get("s") for n in walk(b.cond) if n.get("k") == "lit" and n.get("s") in tab["option_keys"]]
-                if keys and any(n.get("k") == "call" and short(n) == tab["option_test"] for n in walk(b.cond)):
-                    tests.append((b, set(keys)))
+                tree, pos = _strip_not(b.cond, True)
+                keys = keys_of(b.cond)
+                if not keys and isinstance(tree, dict) and tree.get("k") == "var" and tree.get("d") in bool_locals:
+                    keys = bool_locals[tree["d"]]
+                elif keys:
+                    # `!IsSet(a)`-style early exits: the options are set on the false edge
+                    pos = not (isinstance(b.cond, dict) and b.cond.get("k") == "un" and b.cond.get("op") == "!" and
+                               keys_of(b.cond.get("e")))
+                if keys:
+                    tests.append((_T(b.id, b.succ[0] if pos else b.succ[1]), keys))
             seen_keys = set().union(*[k for _, k in tests]) if tests else set()
             if seen_keys != set(tab["option_keys"]):
                 rep.add(Obligation("NONINTERF", fn.base, "explicit-parameter branch", fn.loc, VIOLATION,
